@@ -167,7 +167,7 @@ func pairCase(e *core.Env, ci int, r *core.RNG, S, C string, per int, race bool)
 		return
 	}
 	defer inst.Stop(20 * time.Second)
-	if !inst.WaitLogs("Started TCP relay service listener", nsrv, 10*time.Second) {
+	if !inst.WaitLogs("Started TCP relay service listener", nsrv, 40*time.Second) {
 		rec.Inconclusive("listeners")
 		return
 	}
@@ -221,7 +221,7 @@ func pairCase(e *core.Env, ci int, r *core.RNG, S, C string, per int, race bool)
 			UplinkBytes   uint64 `json:"uplinkBytes"`
 			TCPSessions   uint64 `json:"tcpSessions"`
 		}
-		okStats := svx.Poll(5*time.Second, func() bool {
+		okStats := svx.Poll(20*time.Second, func() bool {
 			resp, err := http.Get(fmt.Sprintf("http://127.0.0.1:%d/api/ssm/v1/servers/A/stats", ports[4]))
 			if err != nil {
 				return false
@@ -369,7 +369,7 @@ func scenario(e *core.Env, ci, k int, r *core.RNG, inst *svx.Instance, down *svx
 			cc.Write([]byte("x"))
 		}
 		adv(300 * time.Millisecond)
-		if !svx.Poll(8*time.Second, func() bool { _, _, _, d := cs.snap(); return d }) {
+		if !svx.Poll(30*time.Second, func() bool { _, _, _, d := cs.snap(); return d }) {
 			viol("failed_connection_left_open", "the onward connection failed (%s) but the client connection was not closed", sc.Fail)
 			return 0, 0, false
 		}
@@ -431,13 +431,13 @@ func scenario(e *core.Env, ci, k int, r *core.RNG, inst *svx.Instance, down *svx
 	if sc.CloseLate && (sc.Mode == "speak-first" || sc.Mode == "close-first" || sc.Mode == "echo") {
 		// the target's data must flow while the client's write side is still open
 		pre := want
-		if !svx.Poll(10*time.Second, func() bool { g, _, _, _ := cs.snap(); return len(g) >= len(pre) }) {
+		if !svx.Poll(30*time.Second, func() bool { g, _, _, _ := cs.snap(); return len(g) >= len(pre) }) {
 			g, _, _, _ := cs.snap()
 			if sc.FirstAt == "never" && len(sent) == 0 && !race {
 				// nothing was ever sent: the relay is still inside the initial-payload wait; let it elapse
 				adv(300 * time.Millisecond)
 			}
-			if !svx.Poll(10*time.Second, func() bool { g, _, _, _ := cs.snap(); return len(g) >= len(pre) }) {
+			if !svx.Poll(30*time.Second, func() bool { g, _, _, _ := cs.snap(); return len(g) >= len(pre) }) {
 				viol("downstream_stalled", "target -> client data did not arrive while the client's write side was open (%d of %d bytes)", len(g), len(pre))
 				return 0, 0, false
 			}
@@ -449,11 +449,11 @@ func scenario(e *core.Env, ci, k int, r *core.RNG, inst *svx.Instance, down *svx
 	}
 	if sc.Mode == "banner-then-rst" {
 		// the target answers after the client's EOF; once the client holds the whole answer the target aborts (RST)
-		svx.Poll(10*time.Second, func() bool { g, _, _, _ := cs.snap(); return len(g) >= len(want) })
+		svx.Poll(30*time.Second, func() bool { g, _, _, _ := cs.snap(); return len(g) >= len(want) })
 		close(tg.Release)
 	}
 	// ---- wait for both ends to finish ----
-	fin := svx.Poll(15*time.Second, func() bool {
+	fin := svx.Poll(40*time.Second, func() bool {
 		_, _, _, d := cs.snap()
 		if !d {
 			return false
